@@ -361,6 +361,18 @@ impl Storage {
         if let Some(min_number) = min_block_number {
             self.update_min_filtered_block_number(min_number);
         }
+        // The pending matched blocks are discarded below, so the blocks after the recorded block
+        // number of any script which is still registered, have to be filtered again.
+        if let Some(min_registered_number) = self
+            .get_filter_scripts()
+            .into_iter()
+            .map(|ss| ss.block_number)
+            .min()
+        {
+            if min_registered_number < self.get_min_filtered_block_number() {
+                self.update_min_filtered_block_number(min_registered_number);
+            }
+        }
         self.clear_matched_blocks();
 
         if should_filter_genesis_block {
